@@ -2,7 +2,7 @@
 import importlib
 import traceback
 
-GENERATORS = ['gen_fixups', 'gen_offset']
+GENERATORS = ['gen_fixups', 'gen_offset', 'gen_options', 'gen_modsites']
 
 
 def generate_all() -> dict:
